@@ -14,11 +14,13 @@ Inductive oact := ACallF | AHandBack | AClose | AStore | ARet | ANext.
 
 Definition decode_act (n : N) : oact :=
   match n with
-  | 0 => ACallF | 1 => AHandBack | 2 => AClose | 3 => AStore | 4 => ARet | _ => ANext
+  | 0 => ACallF | 1 => AHandBack | 2 => AClose | 3 => AStore | 4 => ARet | 6 => ARet (* panics again: leaves Do *) | _ => ANext
   end.
 
 Definition paths_taken : list (list oact) := map (map decode_act) once_paths_taken.
 Definition paths_closed : list (list oact) := map (map decode_act) once_paths_closed.
+(* what the deferred recover does when the function argument panics *)
+Definition paths_panic : list (list oact) := map (map decode_act) once_paths_panic.
 
 Inductive slot := SFree | STaken (g : N) | SClosed.
 
@@ -39,7 +41,9 @@ Inductive sevent :=
 | STake (g : N) (path : nat)     (* receives true: holds the slot; the code follows path #path *)
 | SReadClosed (g : N) (path : nat) (* receives false from the closed channel *)
 | SCtxDone (g : N)               (* the ctx.Done() clause wins: return ctx.Err() *)
-| SAct (g : N).                  (* the next action of the caller's path *)
+| SAct (g : N)                   (* the next action of the caller's path *)
+| SPanicF (g : N) (path : nat).  (* the function argument panics: instead of returning from the call of f
+                                    the caller runs the deferred recover path #path *)
 
 Definition act_eqb (a c : oact) : bool :=
   match a, c with
@@ -48,7 +52,7 @@ Definition act_eqb (a c : oact) : bool :=
   end.
 
 (* one step, for ANY program (the theorems quantify over the path lists) *)
-Definition sstep (taken closed : list (list oact)) (st : sstate) (e : sevent) : option sstate :=
+Definition sstep (taken closed panics : list (list oact)) (st : sstate) (e : sevent) : option sstate :=
   match e with
   | SEnter g =>
     match pc_get (s_pcs st) g with
@@ -90,12 +94,17 @@ Definition sstep (taken closed : list (list oact)) (st : sstate) (e : sevent) : 
       end
     | _ => None
     end
+  | SPanicF g i =>
+    match pc_get (s_pcs st) g, nth_error panics i with
+    | PIn (ACallF :: _), Some p => Some (mkS (s_slot st) (pc_set (s_pcs st) g (PIn p)))
+    | _, _ => None
+    end
   end.
 
-Fixpoint srun (taken closed : list (list oact)) (st : sstate) (tr : list sevent) : option sstate :=
+Fixpoint srun (taken closed panics : list (list oact)) (st : sstate) (tr : list sevent) : option sstate :=
   match tr with
   | [] => Some st
-  | e :: tr' => match sstep taken closed st e with Some st' => srun taken closed st' tr' | None => None end
+  | e :: tr' => match sstep taken closed panics st e with Some st' => srun taken closed panics st' tr' | None => None end
   end.
 
 Definition sinit : sstate := mkS SFree [].
@@ -114,8 +123,8 @@ Definition untouched (p : list oact) : bool :=
   forallb (fun a => negb (act_eqb a AHandBack || act_eqb a AClose)) p.
 
 (* the machine of the CURRENT source *)
-Definition once_step := sstep paths_taken paths_closed.
-Definition once_run := srun paths_taken paths_closed.
+Definition once_step := sstep paths_taken paths_closed paths_panic.
+Definition once_run := srun paths_taken paths_closed paths_panic.
 Definition once_slot_accepts (tr : list sevent) : bool :=
   match once_run sinit tr with Some _ => true | None => false end.
 
